@@ -40,8 +40,8 @@ func TestCheck(t *testing.T) {
 	reactx.SetDelays(0)
 	matrix := reactx.Matrix(reactx.Points, actions)
 	M := len(matrix)
-	variants := run.N(1, 100)
-	nRandom := run.N(150, 120000)
+	variants := run.N(2, 100)
+	nRandom := run.N(500, 120000)
 	total := M*variants + nRandom
 	agg := vlib.NewHitAgg()
 	pf := reactx.Profile{}
